@@ -47,9 +47,9 @@ double StepFunction(double x)
 double Round(double N, unsigned int digits)
 {
 	unsigned int digits_max = 7;
-	if(digits > digits_max)
+	if(digits == 0 || digits > digits_max)
 	{
-		std::cerr << "Error in libphysica::Round(): Significant digits > " << digits_max << "." << std::endl;
+		std::cerr << "Error in libphysica::Round(): The number of significant digits must be between 1 and " << digits_max << " (it is " << digits << ")." << std::endl;
 		std::exit(EXIT_FAILURE);
 	}
 	if(N == 0)
